@@ -1834,7 +1834,9 @@ def judge_run(rec: dict, ref: dict, universe: list[str], tainted: set, probe, op
             if exclusive and name not in ref["open"] and name not in tainted and have is not None \
                     and have[1] == "pyscript" and exp["pinned"] and not same_version(have[0], exp["v"]):
                 probe("allow_false_own_package_pin_differs")
-        if flat:
+        # (a run during which the setting was switched on - a reload re-read the configuration while the run was
+        # suspended - reads it after its first suspension and may install: found in the thorough tier)
+        if flat and rec.get("allow_end", rec["allow"]) == rec["allow"]:
             out.append({"class": "C20.installed_when_not_allowed", "sig": {},
                         "detail": f"{where}: allow_all_imports is false but the installer was called with {flat}",
                         "t": t})
